@@ -142,10 +142,11 @@ def check_conc(prop, tier, seed):
     """C01 / C03 (and the concurrent half of C04 / C13): every explored interleaving of the
     scenario catalogue on the real code must be linearizable w.r.t. Abs (TraceAbs: Call/Lin/Ret)."""
     res = Result(prop, tier, seed, "model_checking")
-    geos, jobs = conc_jobs(tier, seed)
+    # epilogue=1: after every execution the callers wind down (free what they hold, drain) - sequential `sc` events
+    geos, jobs = conc_jobs(tier, seed, extra=["epilogue=1"])
     vlib.build_all(geos)
     outs = gen_and_validate(res, jobs, [prop], par=vlib.NCPU)
-    sj, sfiles, ntotal = synth_jobs(tier, seed, geos, sample=(300 if tier == "quick" else None))
+    sj, sfiles, ntotal = synth_jobs(tier, seed, geos, extra=["epilogue=1"], sample=(650 if tier == "quick" else None))
     try:
         outs += gen_and_validate(res, sj, [prop], par=vlib.NCPU)
     finally:
